@@ -29,7 +29,8 @@ Inductive op :=
 | OAg (name : string) (u : uq) (x : float)       (* get_X(u); add_X(u, x); get_X(u) *)
 | OGetF (name : string) | OGetI (name : string) | OGetU (name : string) | OGetB (name : string)
 | OSetF (name : string) (x : float) | OSetI (name : string) (z : Z) | OSetU (name : string) (z : Z)
-| OSetB (name : string) (b : bool).
+| OSetB (name : string) (b : bool)
+| OPoke (i : nat) (x : float).                   (* state[i] = x: the state vector is a plain Vec the models write to *)
 
 (* what an operation returns *)
 Inductive oval := VNone | VF (y : float) | VFF (y0 y1 : float) | VZ (z : Z) | VB (b : bool).
@@ -97,9 +98,10 @@ Definition run_op (sm : fsm) (st : fstate) (o : op) : obs :=
   | OGetU n => obs_of VZ st (get_custom_u64 FN trunc_F sm st n)
   | OGetB n => obs_of VB st (get_custom_bool FN sm st n)
   | OSetF n x => upd st (set_custom_f64 FN sm st n x)
-  | OSetI n z => upd st (set_custom_i64 FN sm st n z)
-  | OSetU n z => upd st (set_custom_u64 FN sm st n z)
+  | OSetI n z => upd st (set_custom_i64 FN Z2F sm st n z)
+  | OSetU n z => upd st (set_custom_u64 FN Z2F sm st n z)
   | OSetB n b => upd st (set_custom_bool FN sm st n b)
+  | OPoke i x => Obs (Ok VNone) (set_nth st i x)
   end.
 Fixpoint run_ops (sm : fsm) (st : fstate) (ops : list op) : list string :=
   match ops with
@@ -108,16 +110,22 @@ Fixpoint run_ops (sm : fsm) (st : fstate) (ops : list op) : list string :=
               let 'Obs _ st' := ob in show_obs ob :: run_ops sm st' r
   end.
 
-Definition line_state_m (id : Z) (cfg tm am : entries float) (user : user_q float) (probes : list string)
-           (ops : list op) : string :=
-  line "M" id
-    match build_search_instance (new cfg) tm am user with
-    | Ok sm =>
-        let init := initial_state FN sm in
-        join " | " (show_struct (len sm) (get_names sm) (map (get_index sm) probes) init
-                    :: match init with Ok st => run_ops sm st ops | _ => [] end)
-    | r => "R=" ++ show_res (fun _ => "") r
-    end.
+(* one query: the features its traversal and access model contribute, its state_features, its operations *)
+Definition step : Type := entries float * entries float * user_q float * list op.
+
+Definition payload_m (cfg : entries float) (probes : list string) (q : step) : string :=
+  let '(tm, am, user, ops) := q in
+  match build_search_instance (new cfg) tm am user with
+  | Ok sm =>
+      let init := initial_state FN Z2F sm in
+      join " | " (show_struct (len sm) (get_names sm) (map (get_index sm) probes) init
+                  :: match init with Ok st => run_ops sm st ops | _ => [] end)
+  | r => "R=" ++ show_res (fun _ => "") r
+  end.
+(* a sequence of queries on one application: every query is answered from the configuration and its own
+   declarations alone *)
+Definition line_state_m (id : Z) (cfg : entries float) (probes : list string) (steps : list step) : string :=
+  line "M" id (join " || " (map (payload_m cfg probes) steps)).
 
 (* ------------------------------------------------------------------ S: the specification *)
 Local Open Scope Q_scope.
@@ -257,9 +265,10 @@ Definition judge (s : entries float) (pre : list float) (p : op) (o : obs) : str
   | OGetU n => custom_get n (fun fm v => rmap VZ (decode_u64 FN trunc_F fm v))
   | OGetB n => custom_get n (fun fm v => rmap VB (decode_bool FN fm v))
   | OSetF n x => custom_set n (fun fm => encode_f64 FN fm x)
-  | OSetI n z => custom_set n (fun fm => encode_i64 FN fm z)
-  | OSetU n z => custom_set n (fun fm => encode_u64 FN fm z)
+  | OSetI n z => custom_set n (fun fm => encode_i64 FN Z2F fm z)
+  | OSetU n z => custom_set n (fun fm => encode_u64 FN Z2F fm z)
   | OSetB n b => custom_set n (fun fm => encode_bool FN fm b)
+  | OPoke i x => show_obs (Obs (Ok VNone) (set_nth pre i x))
   end.
 
 (* the state the next operation starts from is the one the implementation printed *)
@@ -270,15 +279,24 @@ Fixpoint judge_ops (s : entries float) (pre : list float) (ops : list op) (os : 
   | _ :: _, [] => ["REJECT(no observation)"]
   end.
 
-Definition line_state_s (id : Z) (cfg tm am : entries float) (user : user_q float) (probes : list string)
-           (ops : list op) (os : list obs) : string :=
-  line "S" id
-    match SMS.build cfg tm am user with
-    | Ok s =>
-        let init := SMS.initial_state FN s in
-        join " | " (show_struct (List.length s) (map fst s) (map (SMS.position (map fst s)) probes) (Ok init)
-                    :: judge_ops s init ops os)
-    | r => "R=" ++ show_res (fun _ => "") r
-    end.
+Definition payload_s (cfg : entries float) (probes : list string) (q : step) (os : list obs) : string :=
+  let '(tm, am, user, ops) := q in
+  match SMS.build cfg tm am user with
+  | Ok s =>
+      let init := SMS.initial_state FN Z2F s in
+      join " | " (show_struct (List.length s) (map fst s) (map (SMS.position (map fst s)) probes) (Ok init)
+                  :: judge_ops s init ops os)
+  | r => "R=" ++ show_res (fun _ => "") r
+  end.
+Fixpoint payloads_s (cfg : entries float) (probes : list string) (steps : list step) (oss : list (list obs)) : list string :=
+  match steps with
+  | [] => []
+  | q :: r => payload_s cfg probes q (match oss with o :: _ => o | [] => [] end)
+              :: payloads_s cfg probes r (match oss with _ :: t => t | [] => [] end)
+  end.
+(* the specification is history-free: each query of the sequence is judged on its own *)
+Definition line_state_s (id : Z) (cfg : entries float) (probes : list string) (steps : list step)
+           (oss : list (list obs)) : string :=
+  line "S" id (join " || " (payloads_s cfg probes steps oss)).
 
 End SMRun.
